@@ -203,4 +203,10 @@ Theorem C04_commit_writes_every_dirty_node : forall ps fill fuel t order t' evs,
 Proof. exact commit_tree_pages. Qed.
 Print Assumptions C04_commit_writes_every_dirty_node.
 
+(** the same for the whole decision Bucket.spill takes for a child bucket (write it inline and free its pages, or spill it) *)
+Theorem C04_bucket_commit_keeps_content : forall ps fill fuel t order t' evs inl,
+  aligned t -> commit_bucket ps fill fuel t order = Ok (t', evs, inl) -> flat t' = flat t /\ aligned t'.
+Proof. exact commit_bucket_flat. Qed.
+Print Assumptions C04_bucket_commit_keeps_content.
+
 End NodeLayer.
